@@ -170,6 +170,10 @@ type c03Mat struct {
 	moduli   [][]byte
 	errs     []string
 	signers  []party.ID // CMP sign participants (nil = all three)
+	// ser: documented encoding of every party's material, taken once (single-threaded) by freeze(); every run restores its
+	// own private objects from it (fresh*), so that no Go object is shared between the goroutines that execute runs: the
+	// library's Nat and point types write to themselves in read-only operations (saferith resizedLimbs, ToAffine).
+	ser map[string][]byte
 }
 
 func c03RunHonest(p *c03Proto, seed int64) *Sim {
@@ -259,6 +263,39 @@ func c03Material(c *ctx, needCMP, needPre bool) *c03Mat {
 func (m *c03Mat) freeze() {
 	fail := func(what string, err interface{}) { m.errs = append(m.errs, fmt.Sprintf("freeze %s: %v", what, err)) }
 	g := curve.Secp256k1{}
+	m.ser = map[string][]byte{}
+	keep := func(key string, v interface{}) {
+		var b []byte
+		var err error
+		if cf, ok := v.(*cmp.Config); ok {
+			b, err = cf.MarshalBinary()
+		} else {
+			b, err = cbor.Marshal(v)
+		}
+		if err == nil {
+			m.ser[key] = b
+		}
+	}
+	defer func() {
+		for id, cf := range m.frostCfg {
+			keep("frost/"+string(id), cf)
+		}
+		for id, cf := range m.tapCfg {
+			keep("tap/"+string(id), cf)
+		}
+		for id, cf := range m.cmpCfg {
+			keep("cmp/"+string(id), cf)
+		}
+		for id, pre := range m.cmpPre {
+			keep("pre/"+string(id), pre)
+		}
+		if m.dR != nil {
+			keep("dR", m.dR)
+		}
+		if m.dS != nil {
+			keep("dS", m.dS)
+		}
+	}()
 	for id, cf := range m.frostCfg {
 		if cf == nil {
 			continue
@@ -325,6 +362,66 @@ func (m *c03Mat) freeze() {
 			}
 		}
 	}
+}
+
+func (m *c03Mat) freshFrost(id party.ID) *frost.Config {
+	if b := m.ser["frost/"+string(id)]; b != nil {
+		n := frost.EmptyConfig(curve.Secp256k1{})
+		if cbor.Unmarshal(b, n) == nil {
+			return n
+		}
+	}
+	return m.frostCfg[id]
+}
+
+func (m *c03Mat) freshTap(id party.ID) *frost.TaprootConfig {
+	if b := m.ser["tap/"+string(id)]; b != nil {
+		n := &frost.TaprootConfig{}
+		if cbor.Unmarshal(b, n) == nil {
+			return n
+		}
+	}
+	return m.tapCfg[id]
+}
+
+func (m *c03Mat) freshCMP(id party.ID) *cmp.Config {
+	if b := m.ser["cmp/"+string(id)]; b != nil {
+		n := cmp.EmptyConfig(curve.Secp256k1{})
+		if n.UnmarshalBinary(b) == nil {
+			return n
+		}
+	}
+	return m.cmpCfg[id]
+}
+
+func (m *c03Mat) freshPre(id party.ID) *ecdsa.PreSignature {
+	if b := m.ser["pre/"+string(id)]; b != nil {
+		n := ecdsa.EmptyPreSignature(curve.Secp256k1{})
+		if cbor.Unmarshal(b, n) == nil {
+			return n
+		}
+	}
+	return m.cmpPre[id]
+}
+
+func (m *c03Mat) freshDR() *doerner.ConfigReceiver {
+	if b := m.ser["dR"]; b != nil {
+		n := doerner.EmptyConfigReceiver(curve.Secp256k1{})
+		if cbor.Unmarshal(b, n) == nil {
+			return n
+		}
+	}
+	return m.dR
+}
+
+func (m *c03Mat) freshDS() *doerner.ConfigSender {
+	if b := m.ser["dS"]; b != nil {
+		n := doerner.EmptyConfigSender(curve.Secp256k1{})
+		if cbor.Unmarshal(b, n) == nil {
+			return n
+		}
+	}
+	return m.dS
 }
 
 func c03HonestResults(out *c03Outcome) map[party.ID]interface{} {
@@ -414,11 +511,11 @@ func c03ProtoFrostSign(m *c03Mat, tap bool) *c03Proto {
 	ids := m.ids
 	if tap {
 		return &c03Proto{Name: "taproot-frost-sign", IDs: ids, SID: []byte("c03-tfs"),
-			Start: func(id party.ID) protocol.StartFunc { return frost.SignTaproot(m.tapCfg[id], ids, m.msg) },
+			Start: func(id party.ID) protocol.StartFunc { return frost.SignTaproot(m.freshTap(id), ids, m.msg) },
 			Judge: c03JudgeSigs(func() interface{} { return []byte(m.tapCfg[ids[0]].PublicKey) }, m.msg)}
 	}
 	return &c03Proto{Name: "frost-sign", IDs: ids, SID: []byte("c03-fs"),
-		Start: func(id party.ID) protocol.StartFunc { return frost.Sign(m.frostCfg[id], ids, m.msg) },
+		Start: func(id party.ID) protocol.StartFunc { return frost.Sign(m.freshFrost(id), ids, m.msg) },
 		Judge: c03JudgeSigs(func() interface{} { return m.frostCfg[ids[0]].PublicKey }, m.msg)}
 }
 
@@ -450,9 +547,9 @@ func c03ProtoDoernerSign(m *c03Mat) *c03Proto {
 	return &c03Proto{Name: "doerner-sign", IDs: m.dIDs, Two: true, SID: []byte("c03-ds"), Leader: map[party.ID]bool{r: true, s: true},
 		Start: func(id party.ID) protocol.StartFunc {
 			if id == r {
-				return doerner.SignReceiver(m.dR, r, s, m.msg, nil)
+				return doerner.SignReceiver(m.freshDR(), r, s, m.msg, nil)
 			}
-			return doerner.SignSender(m.dS, s, r, m.msg, nil)
+			return doerner.SignSender(m.freshDS(), s, r, m.msg, nil)
 		},
 		Judge: c03JudgeSigs(func() interface{} { return m.dR.Public }, m.msg)}
 }
@@ -467,7 +564,7 @@ func c03ProtoCMPKeygen(m *c03Mat) *c03Proto {
 func c03ProtoCMPRefresh(m *c03Mat) *c03Proto {
 	ids := m.ids
 	return &c03Proto{Name: "cmp-refresh", IDs: ids, Heavy: true, SID: []byte("c03-cr"), Moduli: m.moduli,
-		Start: func(id party.ID) protocol.StartFunc { return cmp.Refresh(m.cmpCfg[id], nil) },
+		Start: func(id party.ID) protocol.StartFunc { return cmp.Refresh(m.freshCMP(id), nil) },
 		Judge: c03JudgeKeys(c03CmpKeyView, ids, 1, func() []byte { return c03BinOf(m.cmpCfg[ids[0]].PublicPoint()) })}
 }
 
@@ -476,7 +573,7 @@ func c03ProtoCMPSign(m *c03Mat, ids []party.ID) *c03Proto {
 		ids = m.ids
 	}
 	return &c03Proto{Name: "cmp-sign", IDs: ids, Heavy: true, SID: []byte("c03-cs"), Moduli: m.moduli,
-		Start: func(id party.ID) protocol.StartFunc { return cmp.Sign(m.cmpCfg[id], ids, m.msg, nil) },
+		Start: func(id party.ID) protocol.StartFunc { return cmp.Sign(m.freshCMP(id), ids, m.msg, nil) },
 		Judge: c03JudgeSigs(func() interface{} { return m.cmpCfg[ids[0]].PublicPoint() }, m.msg)}
 }
 
@@ -487,15 +584,15 @@ func c03ProtoCMPPresign(m *c03Mat, variant string) *c03Proto {
 	switch variant {
 	case "full":
 		return &c03Proto{Name: "cmp-presign-full", IDs: ids, Heavy: true, SID: []byte("c03-pf"), Moduli: m.moduli,
-			Start: func(id party.ID) protocol.StartFunc { return presign.StartPresign(m.cmpCfg[id], ids, m.msg, nil) },
+			Start: func(id party.ID) protocol.StartFunc { return presign.StartPresign(m.freshCMP(id), ids, m.msg, nil) },
 			Judge: c03JudgeSigs(pk, m.msg)}
 	case "online":
 		return &c03Proto{Name: "cmp-presign-online", IDs: ids, SID: []byte("c03-po"), Moduli: m.moduli,
-			Start: func(id party.ID) protocol.StartFunc { return cmp.PresignOnline(m.cmpCfg[id], m.cmpPre[id], m.msg, nil) },
+			Start: func(id party.ID) protocol.StartFunc { return cmp.PresignOnline(m.freshCMP(id), m.freshPre(id), m.msg, nil) },
 			Judge: c03JudgeSigs(pk, m.msg)}
 	}
 	return &c03Proto{Name: "cmp-presign", IDs: ids, Heavy: true, SID: []byte("c03-ps"), Moduli: m.moduli,
-		Start: func(id party.ID) protocol.StartFunc { return cmp.Presign(m.cmpCfg[id], ids, nil) },
+		Start: func(id party.ID) protocol.StartFunc { return cmp.Presign(m.freshCMP(id), ids, nil) },
 		Judge: func(o *c03Oracle, out *c03Outcome) []string {
 			res := c03HonestResults(out)
 			if len(res) == 0 {
